@@ -55,6 +55,50 @@ CLAIMED = {
              "caching matrix and an input-container matrix on the implementation, plus lock-step histories with client edits.",
         note=N + " By-value modelling of the copying accessors is validated by the matrix, not proved.", design="6/C12",
         technique="Coq proof (escape invariant over a heap of list cells) + exhaustive implementation matrix + lock-step correspondence"),
+    "C05": dict(
+        text="Proof (full for neighbors(); traversals/searches inherit it through neighbors() and are additionally decided by the "
+             "cached-vs-uncached oracle): every query of every history interleaving all mutators, flag toggles and queries answers the "
+             "uncached recomputation (cached_answers_equal_recomputed), all outcomes are independent of the flag "
+             "(answers_independent_of_flag), coherence invariant on every reachable state. Fresh-interpreter clause: C10 legs.",
+        note=N + " Filters are pure and compare by identity as memo keys.", design="6/C05", technique=T),
+    "C11": dict(
+        text="Proof (full): load_adj_dict / load_adj_matrix as sequences of API calls: new universe, members in first-mention / side "
+             "order, one link per pair / truthy cell in input order and orientation, existing graph in place, FORWARD read-back, "
+             "malformed matrix rejected with the state untouched.",
+        note=N + " Matrix cells judged by truthiness (harness maps Python values to booleans).", design="6/C11", technique=T),
+    "C13": dict(
+        text="Proof (partial): in the model only neighbors() has a write effect; for it every fault point of the filter callback is "
+             "covered (state unchanged on a raise, retry gives the normal answer, memo coherent). For the other read-only entry points "
+             "the model functions are pure; that the Python has no other effect is decided by a per-case complete fault-point "
+             "enumeration on the implementation (vars() of every object before/after, retry equals normal answer).",
+        note=N, design="6/C13", technique="Coq proof (fault-able filter model) + fault-point enumeration on the implementation"),
+    "C14": dict(
+        text="Proof (structure; partial for text): declarations = members once each in order with the nearest configured class (MRO); "
+             "exactly one relation per member link, v1->v2 with its class's sides; no invented relation; independent of set order. "
+             "Text (titles, attribute lines, frame) is parsed back by the harness and compared.",
+        note=N + " str.format / dir() / regex attribute lines are not modelled.", design="6/C14",
+        technique="Coq proof over a structured document model + parse-back correspondence"),
+    "C15": dict(
+        text="Proof (full for the model; pyvis add_node/add_edge transcribed): nodes = members in order; every edge is a real link "
+             "from its first to its second end, arrowed iff directed; one arrowed edge per directed link; every internal link "
+             "(self-loops included) shown; nothing outside the universe — unconditionally on every reachable graph.",
+        note=N + " pyvis.network.Network 0.3.2 behaviour is modelled, validated by the tie.", design="6/C15", technique=T),
+    "C16": dict(
+        text="Proof (full): one line per member in universe / stably sorted order, rendering + ' -> ' + neighbours joined by ', '; "
+             "isolated vertex keeps its arrow (pinned behaviour refuted); sort = stable sort; error characterisation. Exact string "
+             "comparison with the implementation.",
+        note=N, design="6/C16", technique=T),
+    "C17": dict(
+        text="Proof (full within the modelled value space): live key returns its instance with no second __init__, new key a fresh "
+             "instance of the class called, check/get_all read-only and exact, operations on one class never change another's lookups "
+             "or outcomes (shared metaclass objects, subclasses), drop/clear/add_mapping effects.",
+        note=N + " Keys interned by the harness under the intended equality; cross-type equality outside the value space.",
+        design="6/C17", technique=T),
+    "C20": dict(
+        text="Proof (full modulo the `random` contract): for every count, edge type, connectivity (arbitrary scale function: no float "
+             "reasoning), ensurelink and RNG stream: returns a universe, exactly count members, links of the requested type inside, "
+             "ensurelink => every vertex is v1 of a link, existing graph untouched; recorded draws of seeded runs replayed in the model.",
+        note=N + " random.randint / random.sample contract is a hypothesis (good_draws).", design="6/C20", technique=T),
     "C18": dict(
         text="Proof (full): theorems over all histories of constructions/clears over any set of classes "
              "(same instance between clears, __init__ once with first args, own instance per class, clear frame rules), "
